@@ -29,9 +29,17 @@ theorem writeSauce_prefix (k : SauceKind) (p : Pic) (date body bytes : List Nat)
   · cases h
   · split at h
     · cases h
-    · injection h with h
-      simp only [List.append_assoc] at h
-      exact ⟨_, h.symm⟩
+    · split at h
+      · rename_i bs hw
+        injection h with h
+        subst h
+        simp only [Sauce.writeSauceInfo] at hw
+        obtain ⟨tail, _, h2⟩ := Sauce.bind_eq_ok hw
+        have := (Sauce.Res.ok.inj h2).symm
+        subst this
+        exact ⟨[Gen.Sauce.eofByte] ++ tail, by simp [List.append_assoc]⟩
+      · cases h
+      · cases h
 
 theorem sauced_prefix (sauce : Bool) (k : SauceKind) (p : Pic) (date body bytes : List Nat)
     (h : (if sauce then writeSauce k p date body else .ok body) = .ok bytes) : ∃ tail, bytes = body ++ tail := by
@@ -145,11 +153,9 @@ theorem adf_blocks (sauce : Bool) (date : List Nat) (p : Pic) (bytes : List Nat)
   · cases h
   split at h
   · cases h
-  split at h
-  · cases h
-  split at h
-  · cases h
   rename_i font hf
+  split at h
+  · cases h
   split at h
   · cases h
   simp only [hf, List.mem_singleton]
@@ -181,11 +187,9 @@ theorem idf_blocks (compress sauce : Bool) (date : List Nat) (p : Pic) (bytes : 
   rename_i img himg
   split at h
   · cases h
-  split at h
-  · cases h
-  split at h
-  · cases h
   rename_i font hf
+  split at h
+  · cases h
   simp only [hf, himg, List.mem_singleton]
   intro b hb
   subst hb
@@ -262,12 +266,12 @@ theorem xb_font_roundtrip (o : Opts) (date : List Nat) (p : Pic) (hrep : Represe
           f.glyphs.length = 256 → lookupFont p.fonts slot = some ⟨name, h, flat f.glyphs⟩ → FontBack g slot f) := by
   obtain ⟨bytes, h1, h2⟩ := xb_roundtrip o date p hrep hdate
   refine ⟨bytes, h1, fun hor => ?_⟩
-  obtain ⟨g, h3, h4⟩ := h2 hor
+  obtain ⟨g, h3, h4⟩ := h2 (hor.imp id (tail_of_looks bytes))
   exact ⟨g, h3, fun slot hslot name f h wf h256 hp => back_of_fontsSame p g (h4.fonts rfl) slot hslot name f h wf h256 hp⟩
 
-/-- C05's `Representable` for ADF / IDF WITHOUT its clause about font names -/
+/-- C05's `Representable` for ADF / IDF (which no longer has a clause about font names) -/
 def boxOk (f : Fmt) (p : Pic) : Bool :=
-  wellFormed p && p.ice == .ice && allCells p (attrCell true) && pal16 p.pal && analyzeFontUsage p.rows.flatten == [0] &&
+  metaOk p.sauce && wellFormed p && p.ice == .ice && allCells p (attrCell true) && pal16 p.pal && analyzeFontUsage p.rows.flatten == [0] &&
   (match lookupFont p.fonts 0 with
    | none => false
    | some f0 => f0.height == 16 && f0.data.length == 4096) &&
@@ -282,25 +286,23 @@ theorem boxOk_of_representable (f : Fmt) (o : Opts) (p : Pic) (hf : f = .adf ∨
   rcases hf with rfl | rfl
   · unfold Representable at h
     simp only [Bool.and_eq_true, beq_iff_eq, decide_eq_true_eq] at h
-    obtain ⟨hwf, ⟨⟨⟨⟨⟨⟨hw, hh⟩, hice⟩, hcells⟩, hpal⟩, hpages⟩, hfont⟩⟩ := h
+    obtain ⟨⟨hmeta, hwf⟩, ⟨⟨⟨⟨⟨⟨hw, hh⟩, hice⟩, hcells⟩, hpal⟩, hpages⟩, hfont⟩⟩ := h
     unfold boxOk
     cases hl : lookupFont p.fonts 0 with
     | none => rw [hl] at hfont; cases hfont
     | some f0 =>
       rw [hl] at hfont
-      simp only [Bool.and_eq_true, beq_iff_eq] at hfont
-      obtain ⟨_, _, hfl, _⟩ := fontOk_parts f0 hfont.1
-      simp [hwf, hice, hcells, hpal, hpages, hfont.2, hfl, hw, hh]
+      obtain ⟨h16, hfl⟩ := font16_parts f0 hfont
+      simp [hmeta, hwf, hice, hcells, hpal, hpages, h16, hfl, hw, hh]
   · unfold Representable at h
     simp only [Bool.and_eq_true, beq_iff_eq, decide_eq_true_eq] at h
-    obtain ⟨hwf, ⟨⟨⟨⟨⟨⟨⟨hw1, hw2⟩, hh⟩, hice⟩, hcells⟩, hpal⟩, hpages⟩, hfont⟩⟩ := h
+    obtain ⟨⟨hmeta, hwf⟩, ⟨⟨⟨⟨⟨⟨⟨hw1, hw2⟩, hh⟩, hice⟩, hcells⟩, hpal⟩, hpages⟩, hfont⟩⟩ := h
     unfold boxOk
     cases hl : lookupFont p.fonts 0 with
     | none => rw [hl] at hfont; cases hfont
     | some f0 =>
       rw [hl] at hfont
-      simp only [Bool.and_eq_true, beq_iff_eq] at hfont
-      obtain ⟨_, _, hfl, _⟩ := fontOk_parts f0 hfont.1
-      simp [hwf, hice, hcells, hpal, hpages, hfont.2, hfl, hw1, hw2, hh]
+      obtain ⟨h16, hfl⟩ := font16_parts f0 hfont
+      simp [hmeta, hwf, hice, hcells, hpal, hpages, h16, hfl, hw1, hw2, hh]
 
 end IcyVerif.FontBox
